@@ -349,7 +349,9 @@ class Custom(Op):
             ned = pt[0]
             fk = rng.choice(["extended", "basic"])
             dfmt = rng.choice(DATE_FORMATS[fk])
-            if ned and rng.random() < 0.7 or not 0 <= pt[2] <= 9999 and rng.random() < 0.8:
+            # the expanded-year token only with a dumper that has expanded digits (with none, `X` prints a
+            # single "0"-padded digit that no parser configuration reads back: outside the property)
+            if ned and (rng.random() < 0.7 or not 0 <= pt[2] <= 9999 and rng.random() < 0.8):
                 dfmt = "+X" + dfmt
             unit = pt[8]
             sep = rng.choice(",.")
